@@ -119,7 +119,9 @@ Import Policy.Errors Policy.ErrorsCheck Proofs.PolicyErrors.
 (* (2) Every entry kind, both subsystems, every user outcome (return, raise an Exception, raise any other
    BaseException), every history of occurrences starting with all triggers serving: every occurrence is served, logs
    exactly once on the script's logger iff the user code raised, lets nothing out ([history_ok]), and afterwards every
-   trigger still serves.  Done-callback lists are occurrences too: every callback runs, each raising one is logged once. *)
+   trigger still serves.  Done-callback lists are occurrences too: every callback runs, each raising one is logged once.
+   So are reloads of the script file ([OReload]) and runs that are suspended while their file is reloaded and end -
+   return or raise - afterwards ([OLate]): the old run is still reported exactly once. *)
 Theorem C18_contained : forall (sub : subsystem) (h : list occ) (m : alive_map),
   (forall e, m e = true) ->
   history_ok h (snd (run_history all_off sub m h)) = true /\ forall e, fst (run_history all_off sub m h) e = true.
@@ -145,7 +147,8 @@ Print Assumptions C18_contained_today.
 
 (* whatever the switches: an occurrence at one entry kind leaves the serving state of every other one untouched *)
 Theorem C18_others_undisturbed : forall dv sub m oc e',
-  (match oc with OUser e _ => e <> e' | OCallbacks _ => True end) -> fst (occ_step dv sub m oc) e' = m e'.
+  (match oc with OUser e _ => e <> e' | OCallbacks _ => True | OReload => False | OLate _ _ => False end) ->
+  fst (occ_step dv sub m oc) e' = m e'.
 Proof. exact others_undisturbed. Qed.
 Print Assumptions C18_others_undisturbed.
 
